@@ -1,6 +1,7 @@
 """Event handlers for qrscp.py"""
 
 import os
+import re
 
 from pydicom import dcmread
 
@@ -316,7 +317,15 @@ def handle_store(event, storage_dir, db_path, cli_config, logger):
 
     # Try and add the instance to the database
     #   If we fail then don't even try to store
-    fpath = os.path.join(storage_dir, sop_instance)
+    #   The SOP Instance UID is supplied by the peer, so make sure the file
+    #   stays within the storage directory
+    fname = re.sub(r"[^0-9.]", "_", str(sop_instance))
+    if not fname.strip("."):
+        logger.error("Invalid SOP Instance UID, unable to store the instance")
+        # Failed - Cannot Understand
+        return 0xC210
+
+    fpath = os.path.join(storage_dir, fname)
 
     if os.path.exists(fpath):
         logger.warning("Instance already exists in storage directory, overwriting")
